@@ -393,6 +393,18 @@ class _ScopeContext:
 
         return True
 
+    @staticmethod
+    def _in_lambda_body(f: fst.FST, top: fst.FST) -> bool:
+        """Whether `f` is inside the `body` of a `Lambda` somewhere below `top`, a `NamedExpr` there binds in the `Lambda`."""
+
+        while (parent := f.parent) is not top and parent:
+            if parent.a.__class__ is Lambda and f.pfield.name == 'body':
+                return True
+
+            f = parent
+
+        return False
+
     def walk_Comp(self, ast: AST) -> Generator[fst.FST, bool, None]:
         """See `walk_funcdef()`. This gets messy if the first generator iterator is a scope itself."""
 
@@ -436,6 +448,7 @@ class _ScopeContext:
             elif (  # all NamedExpr.targets are in parent scope
                 f.parent.a.__class__ is NamedExpr
                 and f.pfield.name == 'target'  # a.__class__ is Name
+                and not self._in_lambda_body(f, fst_)  # except those in the body of a nested Lambda, which bind in the Lambda
             ):
                 subrecurse = True
 
